@@ -37,6 +37,10 @@ PROFILES = {
     "casing": {"src": ("sylvia-derive", "src", "types", "msg_variant.rs"), "out": "CasingFns.lean", "ns": "Extracted.CasingFns",
                "imports": ["Sylvia.Model.RustSem", "Sylvia.Model.Casing"], "opens": "open RustSem Casing", "vars": "", "str": "List Ch",
                "only": ["serde_snake_case"]},
+    # `ReplyOn::excludes` (C07 / C14 / C18): which outcomes may not share a handler name
+    "replyon": {"src": ("sylvia-derive", "src", "parser", "attributes", "msg.rs"), "out": "ReplyOnFns.lean", "ns": "Extracted.ReplyOnFns",
+                "imports": ["Sylvia.Model.RustSem"], "opens": "open RustSem", "vars": "", "str": "String",
+                "only": ["ReplyOn.excludes"], "only_enums": ["ReplyOn"]},
     # the instantiate builder of the runtime library (C10 / C12): a plain struct with setters and two build functions;
     # cosmwasm_std's Binary / Coin are opaque type parameters, WasmMsg is declared in Sylvia/Model/RustExtern.lean
     "builder": {"src": ("sylvia", "src", "builder", "instantiate.rs"), "out": "BuilderFns.lean", "ns": "Extracted.Builder",
@@ -120,6 +124,12 @@ class FnTr:
             return e[1][0]
         if k == "bin" and e[1] in ("+", "-", "*"):
             return "Nat"
+        if k == "bin" and e[1] in ("==", "!=", "<", "<=", ">", ">=", "&&", "||"):
+            return "Bool"
+        if k == "un" and e[1] == "!":
+            return "Bool"
+        if k == "matches":
+            return "Bool"
         if k in ("ref",):
             return self.infer(e[1])
         raise Unsupported("cannot infer the type of %s" % json.dumps(e)[:80])
@@ -163,6 +173,10 @@ class FnTr:
             raise Unsupported("tuple-struct pattern %s" % path)
         if k == "por":
             return " | ".join(self.pat(x) for x in p[1])
+        if k == "ptuple":
+            return "(%s)" % ", ".join(self.pat(x) for x in p[1])
+        if k == "plit":
+            return self.pure(p[1])
         raise Unsupported("pattern %s" % json.dumps(p)[:80])
 
     # ------------------------------------------------------------------ expressions (CPS)
@@ -179,6 +193,10 @@ class FnTr:
             return k(ch_literal(e[1]))
         if t == "field":
             return self.ex(e[1], lambda b: k("%s.%s" % (b, e[2])))
+        if t == "tuple":
+            return self.args(e[1], lambda vs: k("(%s)" % ", ".join(vs)))
+        if t == "matches":
+            return self.ex(e[1], lambda v: k("(match %s with | %s => true | _ => false)" % (v, self.pat(e[2]))))
         if t == "vec":
             return self.args(e[1], lambda vs: k("[%s]" % ", ".join(vs)))
         if t == "struct":
@@ -586,8 +604,11 @@ class ModTr:
     def __init__(self, ast, profile=None):
         self.profile = profile or PROFILES["utils"]
         if self.profile.get("only"):
-            ast = dict(ast, fns=[f for f in ast["fns"] if f["name"] in self.profile["only"]], enums=[], structs=[], methods=[])
-            missing = [n for n in self.profile["only"] if n not in [f["name"] for f in ast["fns"]]]
+            only = self.profile["only"]
+            ast = dict(ast, fns=[f for f in ast["fns"] if f["name"] in only],
+                       enums=[e for e in ast["enums"] if e["name"] in self.profile.get("only_enums", [])], structs=[],
+                       methods=[m for m in ast.get("methods", []) if m["owner"] + "." + m["name"] in only])
+            missing = [n for n in only if n not in [f["name"] for f in ast["fns"]] + [m["owner"] + "." + m["name"] for m in ast["methods"]]]
         else:
             missing = []
         self.missing = missing
@@ -598,7 +619,7 @@ class ModTr:
         self.fns = {f["name"]: f for f in ast["fns"]}
         self.method_notes = {}
         for m in ast.get("methods", []):
-            if m["owner"] not in self.structs:
+            if m["owner"] not in self.structs and m["owner"] not in self.enums:
                 continue
             if m["generics"]:
                 self.fns[m["owner"] + "." + m["name"]] = {"name": m["owner"] + "." + m["name"], "untranslatable": "generic method"}
@@ -610,6 +631,7 @@ class ModTr:
                 else:
                     params.append([pat, ty])
             ret = ["tpath", [m["owner"]]] if m["ret"] == ["tpath", ["Self"]] else m["ret"]
+            params = [[pp, (["tpath", [m["owner"]]] if tt in (["tpath", ["Self"]], ["ref", ["tpath", ["Self"]]]) else tt)] for pp, tt in params]
             name = m["owner"] + "." + m["name"]
             self.fns[name] = {"name": name, "generics": [], "params": params, "ret": ret, "body": m["body"], "owner": m["owner"]}
             if m["attrs"]:
